@@ -24,11 +24,11 @@ def run_server_property(pid, monitors, tier, seed, extra_cases=None, n_random=No
     res.rule = rule + (" | schedules: %d from the deterministic small scope (representative requests x segmentations x completions x one disturbing event "
                        "at every position) + %d seeded random schedules" % (nexh, len(cases) - nexh))
     impl = sd.run_cases(cases)
-    mcases = [sd.model_case(c, e, tb) for (c, e), (o, d, tb) in zip(cases, impl)]
+    mcases = [sd.model_case(c, e, tb) for (c, e), (o, d, tb, *_) in zip(cases, impl)]
     out = run_model_parallel(mcases)
     OOM = enc(["oom"])
     comparable = []
-    for idx, ((c, e), (o, d, tb), m) in enumerate(zip(cases, impl, out)):
+    for idx, ((c, e), (o, d, tb, *_), m) in enumerate(zip(cases, impl, out)):
         res.evaluations += 1
         if d != 30.0:
             res.disagreements.append({"driver": "server:timer-delay", "case": describe(c, e), "model": 30.0, "impl": d})
@@ -64,8 +64,8 @@ def run_server_property(pid, monitors, tier, seed, extra_cases=None, n_random=No
     for mname in monitors:
         mc = []
         for idx in comparable:
-            c, e = cases[idx]; o, d, tb = impl[idx]
-            mc.append((mname, enc([sd.enc_cfg(c, tb), [sd.enc_event(x) for x in e], [[a, ar] for a, ar in o]])))
+            c, e = cases[idx]; o, d, tb, seen = impl[idx]
+            mc.append((mname, enc([sd.enc_cfg(c, tb), [sd.enc_event(x) for x in e], [[a, ar] for a, ar in o], seen])))
         mo = run_model_parallel(mc)
         for idx, m in zip(comparable, mo):
             if m != enc(True):
